@@ -33,8 +33,8 @@ def tla_str(s):
 def tla_inputs(inputs):
     recs = []
     for i in inputs:
-        steps = ", ".join('[op |-> %s, obj |-> %s, to |-> %s, n |-> %d]' % (tla_str(s["op"]), tla_str(s["obj"]),
-                                                                           tla_str(s["to"]), s["n"]) for s in i["steps"])
+        steps = ", ".join('[op |-> %s, obj |-> %s, to |-> %s, n |-> %d, res |-> %s]' % (
+            tla_str(s["op"]), tla_str(s["obj"]), tla_str(s["to"]), s["n"], tla_str(s.get("res", "ok"))) for s in i.get("steps") or [])
         recs.append('[name |-> %s, fmt |-> %s, L |-> %d, olen |-> %d, opfx |-> %d, end |-> %s, steps |-> <<%s>>]' % (
             tla_str(i["name"]), tla_str(i["fmt"]), i["L"], i["olen"], i["opfx"], tla_str(i["end"]), steps))
     return "<<" + ",\n  ".join(recs) + ">>"
@@ -54,10 +54,11 @@ def realisations(inp, sched, errnos):
         return ["short", "fsize"]
     st = inp["steps"][f["at"] - 1]
     hows = ["inject:" + e for e in errnos.get(st["op"], ["EIO"])]
-    if st["op"] in ("open_wr", "open_trunc") and st["obj"] == "target":
-        hows.append("ro_file")
-    if st["op"] == "creat" and st["obj"] == "tmp":
-        hows.append("ro_dir")
+    if inp.get("env", "normal") == "normal":
+        if st["op"] in ("open_wr", "open_trunc") and st["obj"] == "target":
+            hows.append("ro_file")
+        if st["op"] == "creat" and st["obj"] == "tmp":
+            hows.append("ro_dir")
     return hows
 
 
@@ -68,6 +69,9 @@ def run(ctx):
                 "none) in one realisation (injected errno, lowered write count, RLIMIT_FSIZE, read-only file or directory as "
                 "an unprivileged user); distinct = distinct (input class, schedule, realisation); non-trivial = all of them "
                 "(every case runs the binary and compares the bytes of FILE)")
+    ctx.rule += ("; plus multi-file commands (`falco fmt -w` on 150 distinct files, one traced round with delayed openat and "
+                 "plain rounds): one case per (round, file), each file judged on its own - detection of interference between "
+                 "files is probabilistic")
     ctx.assumptions = [
         "linux/amd64 with ptrace allowed; an injected errno stands for the kernel refusing the call without side effect",
         "the input classes generated from VERIF_SEED are representative for their class (protocols are extracted per input)",
@@ -92,11 +96,12 @@ def run(ctx):
     # 1. protocol extraction from the real binary
     exp = ctx.harness("vhc16", ["extract", "-falco", falco, "-dir", base, "-big", "300" if quick else "1500",
                                 "-extra", "0" if quick else "4"], env=seed_env, out_name="extract.json")
+    ctx.notes["environments_unavailable"] = [l.strip() for l in open(exp + ".err") if l.startswith("environment ")]
     inputs = json.load(open(exp))["inputs"]
     byname = {i["name"]: i for i in inputs}
-    ctx.notes["protocols"] = {i["name"]: {"fmt": i["fmt"], "end": i["end"],
+    ctx.notes["protocols"] = {i["name"]: {"fmt": i["fmt"], "end": i["end"], "env": i.get("env"),
                                           "calls": ["%s(%s%s)%s" % (s["op"], s["obj"], "->" + s["to"] if s["to"] != "-" else "",
-                                                                    "=%d" % s["n"] if s["op"] == "write" else "")
+                                                                    "=%d" % s["n"] if s["op"] == "write" else ("!" if s["res"] != "ok" else ""))
                                                     for s in i["steps"]][-10:]} for i in inputs}
     defs = {"Inputs": tla_inputs(inputs),
             "ShortModes": '{"half"}' if quick else '{"one", "half", "allbutone"}', "MaxFaults": "1"}
@@ -152,6 +157,20 @@ def run(ctx):
         if missing:
             raise MachineryFault("schedules explored by TLC that no run realised: %s" % missing[:5])
 
+    # 3b. several files rewritten by one command: every file is judged on its own
+    multi_files, multi_obs = [], []
+    if not rp:
+        mp = ctx.harness("vhc16", ["multi", "-falco", falco, "-dir", base, "-n", "150", "-rounds", "4" if quick else "12"],
+                         env=seed_env, out_name="multi.jsonl")
+        for rec in ctx.read_results(mp):
+            if "files" in rec:
+                multi_files = rec["files"]
+            else:
+                multi_obs.append(rec)
+        if not multi_files or not multi_obs:
+            raise MachineryFault("multi-file run produced nothing (dead driver)")
+    ctx.notes["multi_file_runs"] = len(multi_obs)
+
     # 4. trace validation: requirement on what was observed, mechanism must explain it
     tp = os.path.join(ctx.work, "c16_traces.ndjson")
     done = [o for o in obs if o["realised"]]
@@ -161,6 +180,8 @@ def run(ctx):
             f.write(json.dumps({"id": o["id"], "inp": o["inp"], "exit": o["exit"], "file": o["file"],
                                 "events": [{"op": e["op"], "obj": e["obj"], "to": e["to"], "n": e["n"], "res": e["res"]}
                                            for e in o["events"]]}) + "\n")
+        for o in multi_obs:
+            f.write(json.dumps({"id": o["id"], "inp": o["inp"], "exit": o["exit"], "file": o["file"], "events": []}) + "\n")
         # canary: a run without any call on FILE that nevertheless left half of the formatted text after a reported failure
         for i in inputs:
             if canary is None and i["fmt"] == "text" and i["L"] >= 4 and i["opfx"] != i["L"] // 2:
@@ -171,6 +192,7 @@ def run(ctx):
         f.write(json.dumps(canary) + "\n")
     tdefs = dict(defs)
     tdefs["TraceFile"] = '"%s"' % os.path.basename(tp)
+    tdefs["Files"] = tla_inputs(multi_files) if multi_files else "<<>>"
     tv = ctx.tlc("FmtWriteTrace", defines=tdefs, extra_files=[tp], timeout=900, tag="trace-validation")
     acc = {}
     for line in open(tv.beh_path):
@@ -211,6 +233,23 @@ def run(ctx):
         if not any(p["exit"] == o["exit"] and p["file"] == o["file"] for p in outs):
             r["drift"].append({"obs": "outcome-not-predicted", "expected": [(p["exit"], p["file"]) for p in outs],
                                "got": (o["exit"], o["file"])})
+        ctx.add_result(r)
+    mfby = {i["name"]: i for i in multi_files}
+    for o in multi_obs:
+        a = acc.get(o["id"])
+        if a is None:
+            raise MachineryFault("multi-file trace %s was not consumed by FmtWriteTrace" % o["id"])
+        i = mfby[o["inp"]]
+        r = {"id": o["id"], "input": {"inp": o["inp"], "multi": True, "how": o["how"], "seed": ctx.seed, "orig_bytes": i["olen"], "fmt_bytes": i["L"]},
+             "observed": {"exit": o["exit"], "file": o["file"]},
+             "class": {"inp": "multi", "fmt": "text", "fault": "none", "how": "multi", "exit": o["exit"], "file": o["file"]["b"]},
+             "key": o["id"], "validated": True, "mismatch": [], "drift": []}
+        for v in a["viol"]:
+            seen_viol = True
+            r["mismatch"].append({"obs": v, "expected": "orig or the text falco fmt prints for this file",
+                                  "got": "%s:%d" % (o["file"]["b"], o["file"]["n"])})
+        if o["exit"] == "ok" and o["file"]["b"] == "orig" and i["opfx"] != i["L"]:
+            r["drift"].append({"obs": "success-without-rewrite"})
         ctx.add_result(r)
     ctx.notes["runs"] = len(done)
     if model_viol and not seen_viol and not rp:
